@@ -19,6 +19,8 @@ PLAN = dict(
     runs=[
         dict(name="sig", run="^(TestPropSignatures|TestCorpus)$", checks=(700, 75000), shards=(2, 16), timeout=(300, 3600)),
         # the command-line entry point of the same signer (sign-bundle signatures-section), which is anchored in this property too; the sub-check lives in the CLI package c20
+        # several bundles signed with ONE certificate-chain value, each counter-signed by its own second signer, judged after all have been signed (sub-check of the purity package c18)
+        dict(name="shared", pkg="c18", run="^TestPropSharedChain$", checks=(100, 5000), shards=(1, 4), timeout=(400, 3600)),
         dict(name="cli", pkg="c20", run="^(TestPropSignSections|TestFixedSignSections)$", checks=(25, 750), shards=(1, 16), timeout=(300, 3600)),
     ],
     require=[("sign-sections", "covered"), ("sign-sections", "date-numeric-zone"), ("signatures", "signers-2"), ("signatures", "decoy-offered:dup"), ("signatures", "decoy-offered:unencodable"), ("signatures", "signers-3"), ("signatures", "via-file"), ("signatures", "verified"), ("signatures", "rejected-newverifier"),
